@@ -83,8 +83,18 @@ func switchToParentThread(L *LState, nargs int, haserror bool, kill bool) {
 	if parent == nil {
 		L.RaiseError("can not yield from outside of a coroutine")
 	}
+	if !kill && !parent.reg.canHold(nargs+1) {
+		// a yield: the resumer must have room for the values (and the leading true) before anything is
+		// switched. Where it has not, the yield fails as an error of the coroutine - not half-way through
+		// the hand-over, which left the thread suspended with the same yield still pending
+		L.RaiseError("registry overflow")
+	}
 	L.G.CurrentThread = parent
 	L.Parent = nil
+	if kill {
+		// whatever happens to the hand-over below, this thread is finished
+		L.kill()
+	}
 	if !L.wrapped {
 		if haserror {
 			parent.Push(LFalse)
@@ -97,9 +107,6 @@ func switchToParentThread(L *LState, nargs int, haserror bool, kill bool) {
 	offset := L.currentFrame.LocalBase - L.currentFrame.ReturnBase
 	L.currentFrame = L.stack.Last()
 	L.reg.SetTop(L.reg.Top() - offset) // remove 'yield' function(including tailcalled functions)
-	if kill {
-		L.kill()
-	}
 }
 
 func callGFunction(L *LState, tailcall bool, baseframe *callFrame) bool {
